@@ -707,7 +707,7 @@ def consumer(ex, st, call, args):
 
 
 
-def drain_value(F, val, limit=64):
+def drain_value(F, val, limit=64, distinct_opaques=False):
     """All items of an iterator VALUE built from concrete shapes (a pure adaptor term, or an iterator struct of geo / geo_types, stepped through
     its own `next`): the list of canonical item terms.  Raises Unanalysable when a step forks or the iterator does not end."""
     from .symex import Symex, St, Unanalysable, show_pc, show
@@ -725,6 +725,9 @@ def drain_value(F, val, limit=64):
         ex = Symex(F, concrete_iters=True, loop_bound=12, inline_crates=("geo", "geo_types"), max_depth=14)
         ex.live_iter_mut = True
         ex.resolve_by_receiver = True
+        if distinct_opaques:
+            ex.distinct_opaques = True
+            ex.fold_ground_eq = True
         if nf is not None:
             ps = [p for p in ex.run(nf, args=[("arg", 1)], mem={("arg", 1): cur}) if p.kind != "cut"]
             if len(ps) != 1 or ps[0].pc or ps[0].kind != "ret":
